@@ -393,8 +393,56 @@ def r_cache(ctx) -> None:
     ctx.floor('R-CACHE', n, 8)
 
 
+def listing_passthrough(ctx) -> None:
+    """Every Level.list implementation that lists registry content asks the registry on every call (no instance-level
+    or hand-rolled cache: a stale listing re-allocates an existing generation number / hides new releases)."""
+    prog = ctx.prog
+    level = prog.cls(f'{DIRECTORY}:Level')
+    n = 0
+    for ci in prog.subclasses(level):
+        if 'list' not in ci.methods:
+            continue
+        fn = prog.func(f'{ci.ref}.list')
+        reg_stmts = []
+        graph = cfg.CFG(fn.node)
+        for s in graph.statements():
+            for c in cfg.header_calls(s):
+                if isinstance(c.func, ast.Attribute) and 'registry' in core.src(c.func.value) and c.func.attr in ('projects', 'releases', 'generations'):
+                    reg_stmts.append(s)
+        if not reg_stmts:
+            if ci.name == 'Generation':
+                ctx.ok('C05.listing-fresh', fn, 'Generation.list lists the states of its (immutable) tag', fn.node)
+                continue
+            ctx.fail('C05.listing-fresh', fn, f'{ci.name}.list does not consult the registry', fn.node, key=f'{ci.name}.list:registry')
+            continue
+        n += 1
+        fresh = graph.must_pass(cfg.ENTRY, cfg.EXIT, via=reg_stmts, normal_only=True)
+        stores = [x for x in core.walk_local(fn.node) if isinstance(x, (ast.Assign, ast.AugAssign)) and any(isinstance(t, ast.Attribute) and core.src(t.value) == 'self' for t in (x.targets if isinstance(x, ast.Assign) else [x.target]))]
+        ctx.check(fresh and not stores, 'C05.listing-fresh', fn, f'{ci.name}.list asks the registry on every call and keeps no copy on the instance', fn.node, key=f'{ci.name}.list:fresh')
+    ctx.floor('C05.listing-fresh', n, 2)
+    # the committed tag lists the states in the order given (actor order)
+    dumps = prog.func(f'{MINOR}:Tag.dumps')
+    d = next((n for n in ast.walk(dumps.node) if isinstance(n, ast.Dict) and any(isinstance(k, ast.Constant) and k.value == 'states' for k in n.keys)), None)
+    if d is None:
+        raise core.AnalysisError('Tag.dumps: literal with a states key not found')
+    val = next(v for k, v in zip(d.keys, d.values) if isinstance(k, ast.Constant) and k.value == 'states')
+    okp, why = shared.order_preserving(val, 'self.states')
+    ctx.check(okp, 'C05.state-order', dumps, f'Tag.dumps writes the states in actor order ({why})', val, key='dumps:states-order')
+    loads = prog.func(f'{MINOR}:Tag.loads')
+    kw = next((k.value for c in core.calls_in(loads.node) for k in c.keywords if k.arg == 'states'), None)
+    if kw is None:
+        raise core.AnalysisError('Tag.loads: states keyword not found')
+    okp, why = shared.order_preserving(kw, "meta['states']")
+    ctx.check(okp, 'C05.state-order', loads, f'Tag.loads reads the states back in written order ({why})', kw, key='loads:states-order')
+    new = prog.func(f'{MINOR}:Tag.__new__')
+    ret = next((r for r in core.walk_local(new.node) if isinstance(r, ast.Return)), None)
+    okp, why = shared.order_preserving(ret.value.args[-1], 'states') if ret is not None and isinstance(ret.value, ast.Call) and ret.value.args else (False, 'constructor idiom not recognised')
+    ctx.check(okp, 'C05.state-order', new, f'Tag keeps the states as an ordered tuple ({why})', ret, key='new:states-order')
+
+
 def run(ctx) -> None:
     atomic(ctx)
+    listing_passthrough(ctx)
     close_order(ctx)
     append_only(ctx)
     monotonic_release(ctx)
